@@ -1,11 +1,87 @@
-(* C06 — property theorems (being built). *)
-From G04 Require Import Access Creds CredsCheck CredsProofs.
+(* C06 — property theorems.  Nothing but statements, `exact`, Print Assumptions. *)
+From G04 Require Import Access Creds CredsCheck CredsProofs CredsObligations.
 
-Example T06_example :
-  match new_matcher [{| e_host := b "*"; e_port := b "0"; e_cred := (b "g", b "gp") |};
-                     {| e_host := b "example.test"; e_port := b "80"; e_cred := (b "x", b "xp") |}] with
-  | Some m => match_url m (b "http") (b "example.test") = Some (b "x", b "xp") /\
-              match_url m (b "https") (b "example.test") = Some (b "g", b "gp")
-  | None => False
+(* Whatever the client put in Proxy-Authorization (any number of lines; nominated in
+   Connection or not): the field of every message the proxy emits is determined by the
+   configuration and the hop alone — the upstream proxy's credential on messages
+   addressed to that proxy, nothing on messages addressed to an origin. *)
+Theorem T06_client_pa_never_forwarded : forall om u q m,
+  In m (forward om u q) ->
+  h_values PA (o_fields m) =
+  match o_to m, upstream_cred om u with
+  | ToProxy, Some c => [basic_value c]
+  | _, _ => []
   end.
-Proof. exact (conj eq_refl eq_refl). Qed.
+Proof. exact (forward_pa ob_pa_is_hop_by_hop ob_dialvia_ops). Qed.
+Print Assumptions T06_client_pa_never_forwarded.
+
+Theorem T06_upstream_creds_only_to_proxy : forall om u q m,
+  In m (forward om u q) -> o_to m = ToOrigin -> h_values PA (o_fields m) = [].
+Proof. exact (forward_origin_no_pa ob_pa_is_hop_by_hop ob_dialvia_ops). Qed.
+Print Assumptions T06_upstream_creds_only_to_proxy.
+
+(* the credential used for the upstream hop: userinfo of the proxy URL, else the entry the
+   documented precedence selects for the proxy's address; for PAC the matching entry *)
+Theorem T06_upstream_cred_selection : forall es m u,
+  new_matcher es = Some m ->
+  upstream_cred (Some m) u = spec_upstream_cred es u.
+Proof. exact (upstream_cred_is_spec ob_lookup_order ob_http_port ob_https_port). Qed.
+Print Assumptions T06_upstream_cred_selection.
+
+(* Match / MatchURL compute the documented precedence on the entry list:
+   exact host:port, then *:port, then host:*, then *:*; default ports 80 / 443 *)
+Theorem T06_precedence : forall es m,
+  new_matcher es = Some m ->
+  (forall hp, match_hostport m hp = spec_match es hp) /\
+  (forall scheme host, match_url m scheme host = spec_match_url es scheme host).
+Proof.
+  exact (fun es m H => conj (fun hp => match_is_spec ob_lookup_order es m hp H)
+                            (fun s h => match_url_is_spec ob_lookup_order ob_http_port ob_https_port es m s h H)).
+Qed.
+Print Assumptions T06_precedence.
+
+(* Site credentials: on a plain request leaving the proxy, Authorization is the client's own
+   lines when the client supplied any, else the matching entry's credential, else absent. *)
+Theorem T06_site_only_on_match : forall es m u q msg,
+  new_matcher es = Some m ->
+  is_connect q = false ->
+  existsb (fun x => str_eqb (canon x) AU) (connection_nominated (r_hdr q)) = false ->
+  In msg (forward (Some m) u q) ->
+  h_values AU (r_hdr q) = [] ->
+  h_values AU (o_fields msg) =
+  match spec_match_url es (b "http") (r_host q) with Some c => [basic_value c] | None => [] end.
+Proof. exact (site_only_on_match ob_lookup_order ob_http_port ob_https_port ob_au_not_hop_by_hop ob_site_auth_checks_all_lines). Qed.
+Print Assumptions T06_site_only_on_match.
+
+Theorem T06_client_authorization_kept : forall om u q msg l ls,
+  is_connect q = false ->
+  existsb (fun x => str_eqb (canon x) AU) (connection_nominated (r_hdr q)) = false ->
+  In msg (forward om u q) ->
+  h_values AU (r_hdr q) = l :: ls ->
+  h_values AU (o_fields msg) = l :: ls.
+Proof. exact (client_authorization_kept ob_au_not_hop_by_hop ob_site_auth_checks_all_lines). Qed.
+Print Assumptions T06_client_authorization_kept.
+
+(* Non-vacuity: a table with all four levels, an upstream proxy without userinfo, a client
+   sending both kinds of credentials. *)
+Example T06_example :
+  let es := [{| e_host := b "*"; e_port := b "0"; e_cred := (b "g", b "gp") |};
+             {| e_host := b "example.test"; e_port := b "0"; e_cred := (b "h", b "hp") |};
+             {| e_host := b "*"; e_port := b "80"; e_cred := (b "p", b "pp") |};
+             {| e_host := b "example.test"; e_port := b "80"; e_cred := (b "x", b "xp") |};
+             {| e_host := b "10.0.0.1"; e_port := b "3128"; e_cred := (b "up", b "uppw") |}] in
+  match new_matcher es with
+  | None => False
+  | Some m =>
+      match_url m (b "http") (b "example.test") = Some (b "x", b "xp") /\
+      match_url m (b "https") (b "example.test") = Some (b "h", b "hp") /\
+      match_url m (b "http") (b "other.test") = Some (b "p", b "pp") /\
+      match_url m (b "https") (b "other.test:8443") = Some (b "g", b "gp") /\
+      let q := {| r_method := b "GET"; r_host := b "example.test";
+                  r_hdr := [(b "Proxy-Authorization", [b "Basic Y2xpOmVudA=="; b "Basic eA=="]);
+                            (b "Connection", [b "proxy-authorization"])] |} in
+      map (fun msg => (pa_of (o_fields msg), auth_of (o_fields msg)))
+          (forward (Some m) (UpStatic (b "http") (b "10.0.0.1:3128") None) q)
+      = [([basic_value (b "up", b "uppw")], [basic_value (b "x", b "xp")])]
+  end.
+Proof. exact (conj eq_refl (conj eq_refl (conj eq_refl (conj eq_refl eq_refl)))). Qed.
